@@ -1,6 +1,6 @@
 import DspVerif.Driver.Proto
 import DspVerif.Model.ArrayOps
-/-! driver handlers for C03: parses the token language of `harness/c03.cpp` (`prog`, `sc`, `zpad`,
+/-! driver handlers for C03: parses the token language of `harness/c03.cpp` (`prog`, `form`, `sc`, `zpad`,
 `concat`, `mcplx`, `mre`, `mim`, `mconj`, `mcast`), runs `Model/ArrayOps` at `Float`. -/
 namespace Dsp.Driver
 open Dsp.Proto Dsp.ArrayOps
@@ -106,6 +106,35 @@ def fmtRes : Except String (Val Float) → String
   | .ok v => fmtVal v
   | .error _ => "ERR"
 
+/-- sign-of-zero token of one component: `+` for +0, `-` for -0, `.` for anything else. check.py compares float
+tokens numerically (so -0 = +0 there); this token is a non-float token and is compared exactly. -/
+def zChar (x : Float) : Char :=
+  if x == 0.0 then (if (x.toBits >>> 63) == 1 then '-' else '+') else '.'
+
+def fmtZ : Val Float → String
+  | .r a => "z:" ++ String.ofList (a.map zChar)
+  | .c a => "z:" ++ String.ofList (a.foldr (fun w acc => zChar w.re :: zChar w.im :: acc) [])
+
+/-- value followed by its sign-of-zero token (tags `prog`, `form`) -/
+def fmtValZ (v : Val Float) : String := fmtVal v ++ " " ++ fmtZ v
+
+def fmtResZ : Except String (Val Float) → String
+  | .ok v => fmtValZ v
+  | .error _ => "ERR"
+
+/-- `nv env… ns stmts…` → results of the statements, `ENV`, final environment (all with sign-of-zero tokens) -/
+def runProg : List String → Option String
+  | nv :: rest => do
+    let (env, rest) ← takeMany takeVal (← nv.toNat?) rest
+    match rest with
+    | ns :: rest =>
+      let (stmts, rest) ← takeMany takeStmt (← ns.toNat?) rest
+      if !rest.isEmpty then none else
+      let (rs, env') := run env stmts
+      some (String.intercalate " " (rs.map fmtResZ ++ ["ENV"] ++ env'.map fmtValZ))
+    | [] => none
+  | [] => none
+
 def fmtCx (z : Cx Float) : String := fmtF z.re ++ " " ++ fmtF z.im
 
 def cxBin (o : Op) (a b : Cx Float) : Cx Float :=
@@ -126,15 +155,10 @@ end C03
 open C03
 
 def h03 : List String → Option String
-  | "prog" :: nv :: rest => do
-    let (env, rest) ← takeMany takeVal (← nv.toNat?) rest
-    match rest with
-    | ns :: rest =>
-      let (stmts, rest) ← takeMany takeStmt (← ns.toNat?) rest
-      if !rest.isEmpty then none else
-      let (rs, env') := run env stmts
-      some (String.intercalate " " (rs.map fmtRes ++ ["ENV"] ++ env'.map fmtVal))
-    | [] => none
+  | "prog" :: rest => runProg rest
+  -- compiled C++ expression form with temporaries (`form <name> <kinds> <probe info…>` is documentation; the model
+  -- evaluates the same expression tree, value categories do not exist in it)
+  | "form" :: _name :: _kinds :: rest => runProg rest
   | ["sc", "cc", o, ar, ai, br, bi] => do
     some (fmtCx (cxBin (← parseOp o) ⟨← parseF ar, ← parseF ai⟩ ⟨← parseF br, ← parseF bi⟩))
   | ["sc", "cca", o, ar, ai, br, bi] => do
